@@ -1,6 +1,6 @@
 (* Model driver for the runner family (C13 lock discipline, C14 protocol).
    Reads the harness output (harness/runner): one logged implementation trace per TR line, plus
-   whole-node check lines (WN / RUN) and the stress line (ST).
+   whole-node check lines (WN / RUN), Run-level traces (RN) and the stress line (ST).
    For a TR line: (1) the hidden events the interfaces cannot show (Apply after the unlock that
    ends setCyclicTransmission; Tick / TickTake when a parked transmitter shows up at Lock without a
    delivery) are inserted; only those three kinds are ever inserted; (2) the completed trace is
@@ -140,11 +140,44 @@ let parse_cfg s =
     (fun item ->
       match String.split_on_char ':' item with
       | [ t; "rx" ] -> (nh t, RoleRx)
-      | [ t; "tx" ] -> (nh t, RoleTx false)
-      | [ t; "txc" ] -> (nh t, RoleTx true)
+      | [ t; "tx" ] | [ t; "tx"; _ ] -> (nh t, RoleTx false)
+      | [ t; "txc" ] | [ t; "txc"; _ ] -> (nh t, RoleTx true)
+      | [ t; "txon"; _ ] -> (nh t, RoleTxOn false)
+      | [ t; "txcon"; _ ] -> (nh t, RoleTxOn true)
       | [ t; "app" ] -> (nh t, RoleApp)
       | _ -> failwith ("bad cfg item " ^ item))
     (String.split_on_char ',' s)
+
+(* cycle times (ns) of the transmitted messages: third field of a tx / txc item; absent = none / 1 ms *)
+let parse_cycles s =
+  List.filter_map
+    (fun item ->
+      match String.split_on_char ':' item with
+      | [ t; ("tx" | "txc" | "txon" | "txcon"); c ] -> Some (nh t, z_of_i64hex c)
+      | [ t; "tx" ] -> Some (nh t, z_of_int 0)
+      | [ t; "txc" ] -> Some (nh t, z_of_int 1000000)
+      | _ -> None)
+    (String.split_on_char ',' s)
+
+(* DL.t.<hook return>.<call>.<deadline|none>: what the fake frame transmitter saw of the context it was handed *)
+type dl_obs = { dl_hr : z; dl_call : z; dl_deadline : z option }
+
+let is_dl tok = String.length tok > 3 && String.sub tok 0 3 = "DL."
+
+let parse_dl tok =
+  match String.split_on_char '.' tok with
+  | [ "DL"; t; hr; call; d ] ->
+      Some (nh t, { dl_hr = z_of_i64hex hr; dl_call = z_of_i64hex call; dl_deadline = (if d = "none" then None else Some (z_of_i64hex d)) })
+  | _ -> None
+
+let rec int_of_z_signed (x : z) : string =
+  if Z.ltb x (z_of_int 0) then "-" ^ int_of_z_signed (Z.sub (z_of_int 0) x) else string_of_int (int_of_z x)
+
+let tev_str = function
+  | TE e -> ev_str e
+  | TStamp (t, c) -> Printf.sprintf "Stamp(%x,%sns)" (i t) (int_of_z_signed c)
+  | TDeadline (t, c) -> Printf.sprintf "WithTimeout(%x,at %sns)" (i t) (int_of_z_signed c)
+  | TTransmit (t, f, ok, d) -> Printf.sprintf "Transmit(%x,%x,%s,deadline %sns)" (i t) (i f) (b01 ok) (int_of_z_signed d)
 
 (* ---------------------------------------------------------------- reporting *)
 
@@ -171,6 +204,53 @@ let is_discipline_event = function
 
 exception Rejected of int * string * string (* index, event, why *)
 
+(* send deadlines (timed layer of Runner/RunLts.v): the accepted trace is decorated with the clock
+   readings of the DL records - Stamp at the HookRet of a transmission, the hidden WithTimeout at
+   deadline - send_timeout(cycle), Stamp at the call, Transmit with its deadline - and run through
+   the extracted [tstep].  Only Stamp / WithTimeout events are inserted. *)
+let check_deadlines line cfg cycles dls tr =
+  let cyc = cyc_of_list cycles in
+  let q : (int, dl_obs list) Hashtbl.t = Hashtbl.create 8 in
+  List.iter (fun (t, d) -> let k = i t in Hashtbl.replace q k ((try Hashtbl.find q k with Not_found -> []) @ [ d ])) dls;
+  let peek t = match Hashtbl.find_opt q (i t) with Some (d :: _) -> Some d | _ -> None in
+  let pop t = match Hashtbl.find_opt q (i t) with Some (d :: tl) -> Hashtbl.replace q (i t) tl; Some d | _ -> None in
+  let is_tx t = List.exists (fun (u, _) -> u = t) cycles in
+  let missing = ref None in
+  let timed =
+    List.concat_map
+      (fun e ->
+        match e with
+        | HookRet (t, true) when is_tx t -> ( match peek t with Some d -> [ TStamp (t, d.dl_hr); TE e ] | None -> [ TE e ])
+        | Transmit (t, f, ok) -> (
+            match pop t with
+            | Some { dl_call; dl_deadline = Some d; _ } ->
+                bump "deadlines_checked";
+                [ TDeadline (t, Z.sub d (send_timeout (cyc t))); TStamp (t, dl_call); TTransmit (t, f, ok, d) ]
+            | Some { dl_deadline = None; _ } ->
+                if !missing = None then missing := Some (Printf.sprintf "%s: the context handed to TransmitFrame has no deadline (send timeout %sns)" (ev_str e) (int_of_z_signed (send_timeout (cyc t))));
+                [ TE e ]
+            | None -> [ TE e ] (* no record: trace from a harness without deadline observation *))
+        | _ -> [ TE e ])
+      tr
+  in
+  match !missing with
+  | Some c -> pfail line ("send-deadline: " ^ c)
+  | None ->
+      if List.exists (function TTransmit _ -> true | _ -> false) timed then begin
+        match tfirst_reject cyc (tinit cfg) timed O with
+        | None -> ()
+        | Some n ->
+            let n = int_of_nat n in
+            let ctxt = List.filteri (fun k _ -> k >= n - 3 && k <= n + 2) timed in
+            let t = match List.nth timed n with TStamp (t, _) | TDeadline (t, _) | TTransmit (t, _, _, _) -> Some t | TE _ -> None in
+            pfail line
+              (Printf.sprintf
+                 "send-deadline: timed event#%d %s not enabled in the timed model (send timeout %sns): the deadline handed to TransmitFrame must be (a clock reading taken after the before-transmit hook returned and not after the call) + send timeout; around: %s"
+                 n (tev_str (List.nth timed n))
+                 (match t with Some t -> int_of_z_signed (send_timeout (cyc t)) | None -> "?")
+                 (String.concat " " (List.map tev_str ctxt)))
+      end
+
 let handle_trace line name cfgs toks =
   let cfgl = parse_cfg cfgs in
   let cfg = cfg_of_list cfgl in
@@ -179,6 +259,11 @@ let handle_trace line name cfgs toks =
     | ("DEADLOCK" | "HANG") as m :: rest -> (Some m, List.rev rest)
     | _ -> (None, toks)
   in
+  (* deadline records travel next to the trace: the k-th DL of thread t belongs to its k-th Transmit *)
+  let dls = List.filter_map parse_dl (List.filter is_dl toks) in
+  let toks = List.filter (fun tok -> not (is_dl tok)) toks in
+  let line_id = String.concat " " ("TR" :: name :: cfgs :: toks) (* identity of the schedule: clock readings left out *) in
+  let cycles = parse_cycles cfgs in
   let obs = List.map parse_token toks in
   let completed = ref [] (* reverse order *) in
   let st = ref (init cfg) in
@@ -283,8 +368,9 @@ let handle_trace line name cfgs toks =
      let tr = List.rev !completed in
      Hashtbl.replace kinds "hidden_events_inserted" (!hidden + try Hashtbl.find kinds "hidden_events_inserted" with Not_found -> 0);
      Hashtbl.replace kinds "events_total" (List.length tr + try Hashtbl.find kinds "events_total" with Not_found -> 0);
-     note_case ("TR " ^ (if String.length name >= 4 && String.sub name 0 4 = "rand" then "rand" else name)) line;
+     note_case ("TR " ^ (if String.length name >= 4 && String.sub name 0 4 = "rand" then "rand" else name)) line_id;
      (match prop_pf with Some c -> pfail line c | None -> ());
+     check_deadlines line cfg cycles dls tr;
      if not (accepts cfg tr) then pfail line "internal: completed trace not accepted";
      if not (order_ok tr) then pfail line "order_ok false: hook < Frame() < transmit order violated";
      if not (discipline_ok (init cfg) tr) then pfail line "discipline_ok false";
@@ -295,10 +381,10 @@ let handle_trace line name cfgs toks =
           pfail line (Printf.sprintf "%s: runner threads never returned although every enabled step was granted: %s" m waiting)
       | None ->
           List.iter (fun (t, r) -> match r with
-              | RoleRx | RoleTx _ -> if not (is_done ((!st).th t)) then pfail line (Printf.sprintf "thread %x not Done at the end of the run: %s" (i t) (thread_str ((!st).th t)))
+              | RoleRx | RoleTx _ | RoleTxOn _ -> if not (is_done ((!st).th t)) then pfail line (Printf.sprintf "thread %x not Done at the end of the run: %s" (i t) (thread_str ((!st).th t)))
               | _ -> ()) cfgl)
    with Rejected (idx, e, why) ->
-     note_case ("TR " ^ name) line;
+     note_case ("TR " ^ name) line_id;
      let clause = Printf.sprintf "event#%d %s rejected: %s ; accepted prefix: %s" idx e why
          (String.concat " " (List.map ev_str (List.rev (match !completed with a :: b :: c :: d :: e :: f :: _ -> [ a; b; c; d; e; f ] | l -> l)))) in
      (* which property does the rejection falsify?  A property predicate that is false on the
@@ -336,6 +422,7 @@ let handle_run line fields =
     match get "cause" with
     | "rxhook" -> Some (wrap_receiver (text_of_string (unhex (get "text"))))
     | "txhook" -> Some (wrap_transmitter (text_of_string (unhex (get "msg"))) (text_of_string (unhex (get "text"))))
+    | "connect" -> Some (text_of_string (unhex (get "text")))
     | _ -> None
   in
   match get "cause" with
@@ -347,6 +434,82 @@ let handle_run line fields =
       if got <> spec then
         pfail line (Printf.sprintf "Run returned %s; the property demands %s (model of run.go: %s)" (show got) (show spec) (show model))
       else if got <> model then disagree line (show model)
+
+(* Run-level trace (RN line) against the LTS of Run (Runner/RunLts.v).  Observable: Cancel, Connect
+   call / return, Close() on the returned connection, return of Run.  Hidden, inserted here and
+   nowhere else: Spawn right after a successful Connect; WorkerRet false when a Close or an error
+   return is observed without a cancellation / failure so far (some goroutine failed); WorkerRet
+   true for the goroutines still running when the return of Run is observed. *)
+let qev_str = function
+  | QCancel -> "Cancel" | QConnectCall -> "ConnectCall" | QConnectRet ok -> "ConnectRet(" ^ b01 ok ^ ")"
+  | QSpawn n -> Printf.sprintf "Spawn(%d)" (i n) | QWorkerRet ok -> "WorkerRet(" ^ b01 ok ^ ")"
+  | QClose -> "Close" | QReturn ok -> "Return(" ^ b01 ok ^ ")"
+
+let qstate_str q =
+  Printf.sprintf "pc=%s cancelled=%s failed=%s connected=%s live=%d closer-running=%s closes=%d"
+    (match q.q_pc with QStart -> "Start" | QConnecting -> "Connecting" | QConnFailed -> "ConnFailed" | QConnected -> "Connected" | QRunning -> "Running" | QReturned -> "Returned")
+    (b01 q.q_cancelled) (b01 q.q_failed) (b01 q.q_connected) (i q.q_live) (b01 q.q_closer) (i q.q_closes)
+
+let handle_rn line fields =
+  let kvs, toks = List.partition (fun f -> String.contains f '=') fields in
+  let f = List.map kv kvs in
+  let get k = try List.assoc k f with Not_found -> "" in
+  let n = nh (get "n") in
+  note_case "RN" line;
+  let st = ref qinit in
+  let completed = ref [] in
+  let step e = match qstep !st e with Some q -> st := q; completed := e :: !completed; true | None -> false in
+  let hidden e = if step e then bump "run_hidden_events_inserted" in
+  try
+    List.iteri
+      (fun idx tok ->
+        let e =
+          match tok with
+          | "CA" -> QCancel | "CC" -> QConnectCall | "CR.1" -> QConnectRet true | "CR.0" -> QConnectRet false
+          | "CL" -> QClose | "RT.1" -> QReturn true | "RT.0" -> QReturn false
+          | _ -> failwith ("bad RN token " ^ tok)
+        in
+        (match e with
+         | QClose -> if q_is_running !st && not (!st.q_cancelled || !st.q_failed) then hidden (QWorkerRet false)
+         | QReturn ok ->
+             if q_is_running !st then begin
+               if (not ok) && not !st.q_failed then hidden (QWorkerRet false);
+               while (match !st.q_live with O -> false | S _ -> true) && step (QWorkerRet true) do bump "run_hidden_events_inserted" done
+             end
+         | _ -> ());
+        if not (step e) then begin
+          let why =
+            match e with
+            | QReturn _ when q_is_connected !st || (q_is_running !st && !st.q_closer) ->
+                "Run returned although the connection it obtained from Connect has not been closed"
+            | QReturn true -> "Run returned nil where the model returns an error"
+            | QClose -> "Close() on the connection where the model does not close it (not connected, or closed twice)"
+            | _ -> "not enabled in the model of Run"
+          in
+          raise (Rejected (idx, qev_str e, why ^ " ; model state: " ^ qstate_str !st))
+        end;
+        if q_is_connected !st then hidden (QSpawn n))
+      toks;
+    if not (q_clean !st) then pfail line ("q_clean false at the end of the Run-level trace: " ^ qstate_str !st)
+  with Rejected (idx, e, why) ->
+    pfail line (Printf.sprintf "run-level event#%d %s rejected: %s ; accepted prefix: %s" idx e why (String.concat " " (List.rev_map qev_str !completed)))
+
+(* SH line: a frame with the ID of a received message in some shape, sent to the running node; the
+   receiver stops there iff the model's shape_accepts is false (run_receiver), the hook runs iff not *)
+let handle_sh line fields =
+  let f = List.map kv fields in
+  let get k = try List.assoc k f with Not_found -> "0" in
+  note_case "SH" line;
+  let shape = { sh_remote = get "remote" = "1"; sh_extended = get "ext" = "1"; sh_len = nh (get "len") } in
+  let fr = rframe_of_shape (nat_of_int 200) true (get "msgext" = "1") (nh (get "msglen")) shape true in
+  let acts, res = run_receiver [ fr ] true in
+  let model_stops = (match res with ResNil -> false | _ -> true) in
+  let model_hooks = List.length (List.filter (function ActHook _ -> true | _ -> false) acts) in
+  if (get "stopped" = "1") <> model_stops || hx (get "hooks") <> model_hooks then
+    pfail line
+      (Printf.sprintf "receiver %s with %d hook call(s) at a frame the message %s; the model (lock, receive time, UnmarshalFrame, unlock): %s with %d hook call(s)"
+         (if get "stopped" = "1" then "stopped" else "went on") (hx (get "hooks")) (if model_stops then "rejects" else "accepts")
+         (if model_stops then "stops" else "goes on") model_hooks)
 
 let handle_st line fields =
   let f = List.map kv fields in
@@ -361,14 +524,16 @@ let handle line =
   | "TR" :: name :: cfg :: toks -> handle_trace line name cfg toks
   | "WN" :: fields -> handle_wn line fields
   | "RUN" :: fields -> handle_run line fields
+  | "RN" :: fields -> handle_rn line fields
+  | "SH" :: fields -> handle_sh line fields
   | "ST" :: fields -> handle_st line fields
   | _ -> failwith ("unparsable line: " ^ line)
 
 (* ---------------------------------------------------------------- exhaustive model exploration
 
-   `driver gen <file> <limit> <seed>`: breadth-first exploration of the COMPLETE reachable state
-   space of the LTS for the configuration {receiver 1, transmitter 2 (event message, no ticker),
-   application thread 0x10}, message content in {0,1}, with the ghost counters (accepted, ticks,
+   `driver gen <file> <limit> <seed> [on]`: breadth-first exploration of the COMPLETE reachable state
+   space of the LTS for the configuration {receiver 1, transmitter 2 (event message, no ticker;
+   with `on`: its flag already set at the start, no wake-up token), application thread 0x10}, message content in {0,1}, with the ghost counters (accepted, ticks,
    transmitted, aborted, stale) erased from the state identity (they never influence a guard).
    Every event of the alphabet over these threads is tried in every state.  For every transition
    found, the trace  (BFS-shortest path to its source) ++ [transition]  is a schedule to be forced
@@ -406,8 +571,9 @@ let gen () =
   let file = Sys.argv.(2) in
   let limit = if Array.length Sys.argv > 3 then int_of_string Sys.argv.(3) else 0 in
   let seed = if Array.length Sys.argv > 4 then int_of_string Sys.argv.(4) else 1 in
+  let start_on = Array.length Sys.argv > 5 && Sys.argv.(5) = "on" in
   let r = nat_of_int 1 and x = nat_of_int 2 and a = nat_of_int 16 in
-  let cfg = cfg_of_list [ (r, RoleRx); (x, RoleTx false); (a, RoleApp) ] in
+  let cfg = cfg_of_list [ (r, RoleRx); (x, (if start_on then RoleTxOn false else RoleTx false)); (a, RoleApp) ] in
   let tids = [ r; x; a ] in
   let bools = [ true; false ] in
   let vals = [ O; S O ] in
